@@ -430,9 +430,7 @@ def IsCompatible(left, right):
         if left.IsVector() and right.IsVector():
             return left.GetSize() == right.GetSize()
         elif left.IsMatrix() and right.IsMatrix():
-            return (left.GetRows() == right.GetRows()) and (
-                left.GetColumns() == right.GetColumns()
-            )
+            return left.GetSize() == right.GetSize()
         elif left.IsScalar() and right.IsScalar():
             return True
         else:
